@@ -6,7 +6,7 @@ import gen
 import refsdo as RC
 import hostile as H
 from m_sdo import (World, Runner, resolve, TYPE_CODE, E_OBJ, E_SUB, E_WR, E_RD, E_HIGH, E_SMALL, E_TBIT, E_CMD,
-                   make_download, make_upload, apply_download, choose_download, SIZES)
+                   make_download, make_upload, apply_download, choose_download, SIZES, server_abort_ending)
 from sim import W, R, N, D
 
 E_BLKSIZE = 0x05040002
@@ -795,16 +795,28 @@ def c05_work(item, ctx):
                 lines.insert(rng.randint(0, len(lines)), "rx %x 8 %s" % (g.sdo_req_id(0), (bytes([0x23, 0x80, 0x12, rng.choice([1, 2])]) + (v & 0xFFFFFFFF).to_bytes(4, "little")).hex()))
                 res.counters["client_parameter_writes"] += 1
             lines = [l.replace("rx %x " % g.sdo_req_id(0), "rx %x " % world.req_id(sv if (not two or rng.random() < 0.8) else 1 - sv)) for l in lines]
-            for evs in sim.batch(lines):
+            if rng.random() < 0.35:
+                lines += server_abort_ending(rng, world, sv)
+            ended_by_server = False
+            for l_, evs in zip(lines, sim.batch(lines)):
                 for iv in S.invs(evs):
                     res.violation("c05/inv/" + iv.split()[0], "invariant during hostile prefix: " + iv, sim=sim)
                     return res
+                if l_.startswith("rx %x " % world.req_id(sv)):
+                    # the server itself ended whatever was going on when its answer to the last request is an abort
+                    fr_ = [d for (t, cid, dlc, d, f) in S.txs(evs) if cid == world.resp_id(sv)]
+                    ended_by_server = len(fr_) == 1 and len(fr_[0]) == 8 and fr_[0][0] == 0x80
             res.counters["hostile_frames"] += len(lines)
             st = sim.state()["sdo%d" % sv].split(",")
             tup = (st[0], st[1], st[2], int(st[3]) > 0, min(int(st[4]), 900) // 100, int(st[5]) & 0x80, int(st[5]) > 0, int(st[6]) > 0, int(st[7]) != 0)
             res.states.add(tup)
             how = "abort" if rng.random() < 0.75 else "reset"
-            if how == "abort":
+            if ended_by_server and rng.random() < 0.6:
+                # no transfer is open after an abort by the server: the client goes on with its next transfer straight away
+                how = "server-abort"
+            if how == "server-abort":
+                pass
+            elif how == "abort":
                 resp = run.step(sv, RC.abort_frame(rng.choice([0, 0x2120]), 0, 0x08000000))
                 if len(resp) > 1:
                     res.violation("c05/abort-answered-many", "client abort answered with %d frames" % len(resp), sim=sim)
@@ -877,7 +889,7 @@ def configure(m, prop):
     else:
         m.VARIANTS = ["asan", "asan2"]
         m.RULE = ("hostile SDO histories (all command bytes, mutated / truncated / interleaved dialogues, ticks) continued between probes; each "
-                  "probe = [client abort | NMT reset communication] followed by a clean reference transfer from a covering set (exp/seg/blk x "
+                  "probe = [client abort | NMT reset communication | nothing, when the server's answer to the last frame of the history was an abort] followed by a clean reference transfer from a covering set (exp/seg/blk x "
                   "up/down x int/string/domain x small/large) whose outcome and storage effect must equal the reference; reachable server "
                   "states are read from the public CO_SDO structure before each probe; non-trivial = distinct (server state tuple, probe kind, recovery)")
         m.ASSUMPTIONS = ["AG EF idle is restated as: recovery succeeded from every one of the distinct reachable states observed",
@@ -893,6 +905,8 @@ def configure(m, prop):
             p = []
             if len(total.states) < 12:
                 p.append("only %d distinct server states reached before probes" % len(total.states))
+            if total.counters["after_server-abort"] < 150:
+                p.append("only %d probes straight after an abort by the server" % total.counters["after_server-abort"])
             if total.counters["probes_on_server_1_of_2"] < 200:
                 p.append("only %d probes on the second server" % total.counters["probes_on_server_1_of_2"])
             return p
